@@ -2,6 +2,7 @@ package main
 
 import (
 	"fmt"
+	"go/types"
 	"strings"
 
 	"golang.org/x/tools/go/ssa"
@@ -21,6 +22,8 @@ func authzCfg(c *Ctx) ExploreConfig {
 }
 
 func runC17(c *Ctx) {
+	defer checkRequestGetters(c, "C17.R11")
+	defer checkSessionSetExpiresAt(c, "C17.R10")
 	defer checkStoreKeyed(c, "C17.R8", storeRow{meth: "CreatePARSession", table: "PARSessions", op: "create", key: 2}, storeRow{meth: "GetPARSession", table: "PARSessions", op: "get", key: 2}, storeRow{meth: "DeletePARSession", table: "PARSessions", op: "delete", key: 2})
 	defer checkPARSessionOrder(c, "C17.R7")
 	defer checkConfigGetters(c, "C17.R6", "EnforcePushedAuthorize", "GetPushedAuthorizeContextLifespan", "GetPushedAuthorizeRequestURIPrefix")
@@ -28,6 +31,7 @@ func runC17(c *Ctx) {
 	c17Merge(c)
 	c17Push(c)
 	c17Handler(c)
+	c17RequestObject(c)
 }
 
 func c17Use(c *Ctx) {
@@ -481,4 +485,70 @@ func c17Merge(c *Ctx) {
 	}
 	c.Check(ok && n > 0, rule, role, fn, "merged-form-authoritative", "Request.Merge overwrites the receiver's form value of every key of the merged request with the merged request's value", why, w)
 	c.Check(len(gotField) == len(fields), rule, role, fn, "merged-identity-authoritative", "Request.Merge takes id, client and session from the merged request", fmt.Sprintf("fields set from the merged request: %d/3", len(gotField)), nil)
+}
+
+// C17.R9 — a pushed request object must not itself carry request_uri. The
+// request-object step is shared with the authorization endpoint; for a push
+// (isPARRequest) it merges the object's claims into the stored form, so the
+// refusal has to look at the claims: every path of the step that merges claims
+// while isPARRequest is true knows claims["request_uri"] to be empty. (The form
+// parameter of the same name was refused earlier and is always empty here.)
+func c17RequestObject(c *Ctx) {
+	const rule, role = "C17.R9", "request-object"
+	fn := c.P.Func("(*" + pkgRoot + ".Fosite).authorizeRequestParametersFromOpenIDConnectRequest")
+	if fn == nil {
+		c.RoleUnmatched(rule, role, "(*Fosite).authorizeRequestParametersFromOpenIDConnectRequest")
+		return
+	}
+	var isPAR *Term
+	for i, p := range fn.Params {
+		if b, ok := p.Type().Underlying().(*types.Basic); ok && b.Kind() == types.Bool {
+			isPAR = paramTerm(i, p)
+		}
+	}
+	if isPAR == nil {
+		c.RoleUnmatched(rule, role, "the isPARRequest parameter of the request-object step")
+		return
+	}
+	ex := c.Explore(fn, rootCfg(), "root")
+	if !c.complete(ex, rule, role, fn) {
+		return
+	}
+	ok, n := true, 0
+	var w *Path
+	for _, p := range ex.Paths {
+		if p.Kind != "return" || !p.Holds(atomB(isPAR), true) {
+			continue
+		}
+		merged := false
+		for _, e := range p.Calls(".Set") {
+			if e.Recv != nil && e.Recv.Op == "field" && e.Recv.Name == "Form" && e.Arg(0).Op == "rangekey" {
+				merged = true
+			}
+		}
+		if !merged {
+			continue
+		}
+		n++
+		empty := false
+		for _, f := range p.Facts {
+			if f.Atom.Kind != "EQ" || !f.Pol {
+				continue
+			}
+			for _, pr := range [][2]*Term{{f.Atom.A, f.Atom.B}, {f.Atom.B, f.Atom.A}} {
+				if pr[1].Key() != tStr("").Key() {
+					continue
+				}
+				if pr[0].Mentions(func(t *Term) bool {
+					return t.Op == "lookup" && len(t.Args) == 2 && t.Args[1].Key() == tStr("request_uri").Key() && t.Args[0].Mentions(func(s *Term) bool { return s.Op == "field" && s.Name == "Claims" })
+				}) {
+					empty = true
+				}
+			}
+		}
+		if !empty {
+			ok, w = false, p
+		}
+	}
+	c.Check(ok && n > 0, rule, role, fn, "pushed-object-without-request-uri", "for a push, request-object claims are merged into the form only if the object's request_uri claim is known empty", "claims of a pushed request object are merged without its request_uri claim having been tested", w)
 }
